@@ -1,7 +1,174 @@
-(* C10 -- placeholder while the proofs are being written *)
-From Coq Require Import ZArith List.
-From NV Require Import Bcf.Ints Bcf.Typed Bcf.Genotype.
+(* C10 -- BCF typed encoding round-trips every value and carries the same content as VCF.
+   Property theorems only.  Models: NV.Bcf.Ints (Int8/16/32 sentinels, width selection by scalar
+   test and by min/max scan, byte images), NV.Bcf.Typed (descriptor byte, INFO Integer/Float/
+   String values, per-sample FORMAT Integer/Float series, both directions), NV.Bcf.Genotype
+   (GT series).  The models reproduce the pinned code including its error results and panics and
+   are compared with the real writer/reader byte for byte by bin/check C10. *)
+From Coq Require Import ZArith NArith List Bool.
+From NV Require Import Bcf.Ints Bcf.IntsProofs Bcf.Typed Bcf.TypedProofs Bcf.Genotype Bcf.GenotypeProofs.
+Import ListNotations.
 Open Scope Z_scope.
-Theorem c10_min_value_is_value : forall w, classify w (min_value w) = IValue (min_value w).
-Proof. intros []; reflexivity. Qed.
-Print Assumptions c10_min_value_is_value.
+
+(* Sentinel classification, all three widths, the whole range: Missing = MIN, EndOfVector = MIN+1,
+   Reserved = MIN+2..MIN+7, Value from MIN+8; and converting back gives the same raw integer. *)
+Theorem bcf_int_classify_spec : forall w n, wmin w <= n <= wmax w ->
+  (n = wmin w /\ classify w n = IMissing) \/
+  (n = wmin w + 1 /\ classify w n = IEov) \/
+  (wmin w + 2 <= n <= wmin w + 7 /\ classify w n = IReserved n) \/
+  (wmin w + 8 <= n /\ classify w n = IValue n).
+Proof. exact classify_spec. Qed.
+Print Assumptions bcf_int_classify_spec.
+
+Theorem bcf_int_raw_of_classify : forall w n, raw_of w (classify w n) = n.
+Proof. exact raw_of_classify. Qed.
+Print Assumptions bcf_int_raw_of_classify.
+
+(* the same, by exhaustive evaluation of the Int8 (256) and Int16 (65536) domains *)
+Theorem bcf_int8_classify_exhaustive : forall n, -128 <= n <= 127 -> check_classify W8 n = true.
+Proof. exact int8_classify_all. Qed.
+Print Assumptions bcf_int8_classify_exhaustive.
+
+Theorem bcf_int16_classify_exhaustive : forall n, -32768 <= n <= 32767 -> check_classify W16 n = true.
+Proof. exact int16_classify_all. Qed.
+Print Assumptions bcf_int16_classify_exhaustive.
+
+(* For every i32 n >= -2^31+8 the INFO scalar writer picks a width whose value range (sentinels
+   excluded) holds n, n is a Value there (never a sentinel), and reading the bytes back gives n;
+   below -2^31+8 the writer returns Err(InvalidInput). *)
+Theorem bcf_int_width_sound : forall n, -2147483640 <= n <= 2147483647 ->
+  exists w bs,
+    select_scalar n = Some w /\
+    min_value w <= n <= wmax w /\
+    classify w n = IValue n /\
+    enc_info_int n = Ok bs /\
+    dec_info_int bs = ROk (RInt n).
+Proof. exact int_width_sound. Qed.
+Print Assumptions bcf_int_width_sound.
+
+Theorem bcf_int_below_min_is_error : forall n, n < -2147483640 -> enc_info_int n = ErrInput.
+Proof. exact int_below_min_is_error. Qed.
+Print Assumptions bcf_int_below_min_is_error.
+
+(* the chosen width is the narrowest that can hold n *)
+Theorem bcf_int_width_minimal : forall n w w', select_scalar n = Some w ->
+  min_value w' <= n <= wmax w' -> (wbytes w <= wbytes w')%nat.
+Proof. exact select_scalar_minimal. Qed.
+Print Assumptions bcf_int_width_minimal.
+
+(* Descriptor byte with overflow length: every type code, every length 0..2^31-1, any suffix. *)
+Theorem bcf_descriptor_roundtrip : forall code len rest,
+  valid_code code = true -> 0 <= len <= 2147483647 ->
+  exists bs, enc_type code len = Ok bs /\ read_type (bs ++ rest) = Some (code, len, rest).
+Proof. exact descriptor_roundtrip. Qed.
+Print Assumptions bcf_descriptor_roundtrip.
+
+Theorem bcf_descriptor_too_long_is_error : forall code len, 2147483647 < len -> enc_type code len = ErrInput.
+Proof. exact enc_type_err. Qed.
+Print Assumptions bcf_descriptor_too_long_is_error.
+
+(* Per-sample Integer vectors (FORMAT, Number != 1): any number of samples, missing samples,
+   missing entries, unequal lengths (padded with EndOfVector to the longest), values anywhere in
+   -2^31+8..2^31-1, through the writer's own min/max scan and length computation.  Read back:
+   the same vectors with their own lengths ([norm]: a vector that is exactly one missing entry
+   is the VCF field `.`, i.e. the missing value).  Excluded: series in which no sample has an
+   entry (max_len = 0) -- refuted below. *)
+Theorem bcf_int_vector_roundtrip : forall vals,
+  entries_within (-2147483640) 2147483647 vals ->
+  (1 <= max_len vals)%nat -> Z.of_nat (max_len vals) <= 2147483647 ->
+  exists bs, enc_fmt_ints vals = Ok bs /\
+             dec_fmt_ints (length vals) bs = ROk (BVectors (map norm vals)).
+Proof. exact fmt_int_vector_roundtrip. Qed.
+Print Assumptions bcf_int_vector_roundtrip.
+
+Theorem bcf_int_vector_below_min_is_error : forall vals vs n,
+  In (Some vs) vals -> In (Some n) vs -> n < -2147483640 -> enc_fmt_ints vals = ErrInput.
+Proof. exact fmt_int_vector_below_min_is_error. Qed.
+Print Assumptions bcf_int_vector_below_min_is_error.
+
+(* the decoder side for ANY fitting width and ANY common length (not only the writer's choice) *)
+Theorem bcf_int_series_roundtrip_any_width : forall w m vals rest,
+  (forall s, In s vals -> sample_fits w s) ->
+  (forall s, In s vals -> (sample_len s <= m)%nat) -> (1 <= m)%nat ->
+  dec_samples w (length vals) m
+    (flat_map (fun s => flat_map (enc_int w) (sample_raws w m s)) vals ++ rest)
+  = ROk (map norm vals).
+Proof. exact series_roundtrip. Qed.
+Print Assumptions bcf_int_series_roundtrip_any_width.
+
+(* known finding fmt-int-vector-all-samples-missing: accepted by the writer, unreadable *)
+Theorem bcf_int_vector_all_missing_refuted :
+  exists vals bs, enc_fmt_ints vals = Ok bs /\ dec_fmt_ints (length vals) bs = RErr.
+Proof. exact all_missing_series_refuted. Qed.
+Print Assumptions bcf_int_vector_all_missing_refuted.
+
+(* Floats: every 32-bit pattern outside the reserved NaNs 0x7f800001..0x7f800007 is read back
+   bit for bit (the canonical NaN 0x7fc00000 and all other NaN payloads included). *)
+Theorem bcf_float_roundtrip : forall b, 0 <= b < 4294967296 -> ~ reserved_nan b ->
+  exists bs, enc_info_float b = Ok bs /\ dec_info_float bs = ROk (RFloat b).
+Proof. exact float_roundtrip. Qed.
+Print Assumptions bcf_float_roundtrip.
+
+Theorem bcf_float_missing_pattern_refuted :
+  exists b bs, enc_info_float b = Ok bs /\ dec_info_float bs = ROk RNone.
+Proof. exact float_missing_pattern_refuted. Qed.
+Print Assumptions bcf_float_missing_pattern_refuted.
+
+(* Genotypes (partial): every representable allele -- index 0..62 with either phasing -- is
+   encoded as (allele+1)<<1|phased in 0..127 and parsed back to the same allele and phasing.
+   The series-level statement [genotype_roundtrip_full_statement] is FALSE for the model (and for
+   the code): known findings gt-mixed-ploidy-padding and gt-missing-allele-phase-lost. *)
+Theorem bcf_genotype_roundtrip_partial : forall p ph, 0 <= p <= 62 -> allele_ok (Some p, ph) = true.
+Proof. exact allele_roundtrip. Qed.
+Print Assumptions bcf_genotype_roundtrip_partial.
+
+Theorem bcf_genotype_mixed_ploidy_refuted :
+  exists gs bs, enc_gt gs = Ok bs /\ dec_gt (length gs) bs <> ROk (map Some gs).
+Proof. exact genotype_mixed_ploidy_refuted. Qed.
+Print Assumptions bcf_genotype_mixed_ploidy_refuted.
+
+Theorem bcf_genotype_missing_phase_refuted :
+  exists gs bs, enc_gt gs = Ok bs /\ dec_gt (length gs) bs <> ROk (map Some gs).
+Proof. exact genotype_missing_phase_refuted. Qed.
+Print Assumptions bcf_genotype_missing_phase_refuted.
+
+Theorem bcf_genotype_full_statement_refuted : ~ genotype_roundtrip_full_statement.
+Proof. exact genotype_refutes_full_statement. Qed.
+Print Assumptions bcf_genotype_full_statement_refuted.
+
+(* c10_partial: the composition for the modelled kinds.  What C10 states in full -- every record
+   the writer accepts is read back as the same record, string-map indices included -- is covered
+   beyond these kinds by the implementation-side oracle only. *)
+Theorem c10_partial :
+  (forall n, -2147483640 <= n <= 2147483647 ->
+     exists bs, enc_info_int n = Ok bs /\ dec_info_int bs = ROk (RInt n)) /\
+  (forall n, n < -2147483640 -> enc_info_int n = ErrInput) /\
+  (forall vals, entries_within (-2147483640) 2147483647 vals ->
+     (1 <= max_len vals)%nat -> Z.of_nat (max_len vals) <= 2147483647 ->
+     exists bs, enc_fmt_ints vals = Ok bs /\
+                dec_fmt_ints (length vals) bs = ROk (BVectors (map norm vals))) /\
+  (forall b, 0 <= b < 4294967296 -> ~ reserved_nan b ->
+     exists bs, enc_info_float b = Ok bs /\ dec_info_float bs = ROk (RFloat b)) /\
+  (forall code len rest, valid_code code = true -> 0 <= len <= 2147483647 ->
+     exists bs, enc_type code len = Ok bs /\ read_type (bs ++ rest) = Some (code, len, rest)).
+Proof.
+  split; [|split; [exact int_below_min_is_error|split; [exact fmt_int_vector_roundtrip|
+    split; [exact float_roundtrip|exact descriptor_roundtrip]]]].
+  intros n H. destruct (int_width_sound n H) as [w [bs [_ [_ [_ [E D]]]]]]. exists bs. split; assumption.
+Qed.
+Print Assumptions c10_partial.
+
+(* non-vacuity *)
+Example c10_examples :
+  enc_info_int (-121) = Ok [18%N; 135%N; 255%N] /\            (* Int16: 0x12 0x87 0xff *)
+  enc_info_int (-120) = Ok [17%N; 136%N] /\                   (* Int8:  0x11 0x88 *)
+  enc_info_int 128 = Ok [18%N; 128%N; 0%N] /\
+  enc_info_int (-2147483641) = ErrInput /\
+  enc_info_ints [Some (-120); None; Some 127] = Ok [49%N; 136%N; 128%N; 127%N] /\
+  dec_info_ints [49%N; 136%N; 128%N; 127%N] = ROk (RInts [Some (-120); None; Some 127]) /\
+  max_len [Some [Some 1; None]; None; Some [Some 70000]] = 2%nat.
+Proof. vm_compute. repeat split; reflexivity. Qed.
+
+Example c10_series_example :
+  exists bs, enc_fmt_ints [Some [Some 1; None; Some (-121)]; None; Some [Some 300]] = Ok bs /\
+             dec_fmt_ints 3 bs = ROk (BVectors [Some [Some 1; None; Some (-121)]; None; Some [Some 300]]).
+Proof. exact series_example. Qed.
